@@ -83,6 +83,7 @@ _DT0 = datetime(1, 1, 1)
 
 
 _OBJS: dict = {"by_key": {}, "by_id": {}}
+_CT_MEMO: dict = {}
 
 
 def reset_objects() -> None:
@@ -120,15 +121,23 @@ class ClassTable:
         name = f"C{i}"
         if kind in ("data", "data_slots"):
             flds = []
-            for fname, ann, dflt, _req in d["fields"]:
+            all_f = d["fields"]
+            own = all_f if "base_cls" not in d else (all_f[len(all_f) - d.get("own", 0):] if d.get("own", 0) else [])
+            for fname, ann, dflt, _req in own:
                 a = Any if ann is None else ann
                 if dflt is None:
                     flds.append((fname, a))
                 else:
                     flds.append((fname, a, dataclasses.field(default=to_py(dflt, self))))
+            bases = (self.classes[d["base_cls"]],) if "base_cls" in d else ()
+            ns = {}
+            if d.get("post_init"):
+                ns["__post_init__"] = lambda self_: object.__setattr__(self_, "extra_attr", 1)
             return dataclasses.make_dataclass(
                 name,
                 flds,
+                bases=bases,
+                namespace=ns,
                 slots=(kind == "data_slots"),
                 frozen=bool(d.get("hashable")),
             )
@@ -489,7 +498,10 @@ class Ctx:
 
     def __init__(self, classes: List[dict], lazy: list, rng: Optional[random.Random] = None):
         reset_objects()
-        self.ct = ClassTable(classes)
+        key = id(classes)
+        if key not in _CT_MEMO or _CT_MEMO[key][0] is not classes:
+            _CT_MEMO[key] = (classes, ClassTable(classes))
+        self.ct = _CT_MEMO[key][1]
         _CURRENT_CT[0] = self.ct
         self.lazy_terms = lazy
         self.lazy_objs: List[Any] = [None] * len(lazy)
